@@ -18,7 +18,7 @@ PROPS = {
     "C06": dict(families=["hist", "panic", "acq"], pred="C06"),
     "C07": dict(families=["trynew"], pred="C07"),
     "C08": dict(families=["order", "acq"], pred="C08"),
-    "C09": dict(families=["acq", "fault"], pred="C09"),
+    "C09": dict(families=["acq", "fault", "conc"], pred="C09"),
     "C10": dict(families=["poison", "panic", "conc"], pred="C10"),
     "C11": dict(families=["panic", "poison"], pred="C11"),
     "C12": dict(families=["fault"], pred="C12"),
